@@ -361,6 +361,13 @@ def store_str():
 
 def tips(root, ctx):
     out = []
+    tree = getattr(ctx, "tree", None)
+    if tree is not None and tree.root is root:
+        t = tree.tip()       # entry 0: the tree-level tip
+        out.append("0=%s" % ("-" if t is None else ctx.nid.get(t.id, "?")))
+    else:
+        t = root.tip()
+        out.append("0=%s" % ("-" if t is None else ctx.nid.get(t.id, "?")))
     for b in preorder(root):
         t = b.tip()
         out.append("%s=%s" % (ctx.nid.get(b.id, "?"), "-" if t is None else ctx.nid.get(t.id, "?")))
@@ -387,7 +394,7 @@ def tick_args(toks):
             k, v = t.split("=", 1)
             d[k] = v
     return ({k: TS[v] for k, v in parse_pairs(d["o"]).items()},
-            {k: v == "1" for k, v in parse_pairs(d["g"]).items()}, int(d["t"]))
+            {k: (TS[v] if v in ("S", "F", "R") else v == "1") for k, v in parse_pairs(d["g"]).items()}, int(d["t"]))
 
 
 class BtRun(object):
@@ -400,6 +407,7 @@ class BtRun(object):
         self.ctx = Ctx()
         self.root = build(spec, self.ctx, names)
         self.tree = py_trees.trees.BehaviourTree(self.root)
+        self.ctx.tree = self.tree
         self.names = names
         self.dead = False
 
@@ -840,6 +848,7 @@ def run_bt(scn):
         run.root = build_idiom(toks, run.ctx)
         spec = reflect(run.root, run.ctx)
         run.tree = py_trees.trees.BehaviourTree(run.root)
+        run.ctx.tree = run.tree
         run.names = None
         run.dead = False
     else:
@@ -847,6 +856,9 @@ def run_bt(scn):
         assert rest == []
         run = BtRun(spec, scn.meta.get("names"))
     out = ["SPEC " + spec_str(spec)]
+    if scn.meta.get("stream"):
+        # the activity stream is pure logging: with it switched on the behaviours must act exactly as without
+        Blackboard.enable_activity_stream(100)
     import re as _re
     seen = []
 
